@@ -162,7 +162,11 @@ def _standin(rep, tier, seed):
             ts = sorted({p[0] for d in cp1 + cp2 for p in d})
             ts = ts + [(u + v) / 2 for u, v in zip(ts, ts[1:])]
             for name, op, want in ops:
-                R = op()
+                try:
+                    R = op()
+                except Exception as ex:
+                    rep.violation("exact landscape %s raised %r on well-formed operands %s, %s" % (name, ex, cp1, cp2), "exact-op:exception", {"input": {"cp1": cp1, "cp2": cp2, "scalar": s, "op": name}, "observed": repr(ex)})
+                    continue
                 evals += 1
                 distinct.add(("exact", name, len(cp1), len(cp2)))
                 depth = max(len(cp1), len(cp2))
@@ -196,7 +200,11 @@ def _standin(rep, tier, seed):
                     ("mul", lambda: A * s, s * va), ("rmul", lambda: s * A, s * va), ("div", lambda: A / s, va / s),
                     ("twice", lambda: (A + B) + (A + B), 2 * (pad(va, kk) + pad(vb, kk))), ("after", lambda: A + A, 2 * va)]
             for name, op, want in gops:
-                R = op()
+                try:
+                    R = op()
+                except Exception as ex:
+                    rep.violation("grid landscape %s raised %r" % (name, ex), "grid-op:exception", {"input": {"a": va.tolist(), "b": vb.tolist(), "scalar": s, "op": name}, "observed": repr(ex)})
+                    continue
                 evals += 1
                 distinct.add(("grid", name, ka, kb))
                 if R.values.shape != want.shape or not np.allclose(R.values, want, atol=1e-12):
@@ -209,6 +217,14 @@ def _standin(rep, tier, seed):
             # rejections
             C = PersLandscapeApprox(start=0.0, stop=5.0, num_steps=ns, values=va.copy(), hom_deg=0)
             D = PersLandscapeApprox(start=0.0, stop=4.0, num_steps=ns, values=va.copy(), hom_deg=1)
+            # grids of a single node too: the same start but different stops are different grids
+            one = lambda a0, b0: PersLandscapeApprox(start=a0, stop=b0, num_steps=1, values=np.array([[1.0]]), hom_deg=0)
+            try:
+                evals += 1
+                one(0.0, 2.0) + one(0.0, 3.0)
+                rep.violation("adding single-node grid landscapes with different stops was not rejected", "grid-op:no-rejection", {"input": {"what": "stop, num_steps=1"}})
+            except ValueError:
+                pass
             for other, what in ((C, "stop"), (D, "hom_deg")):
                 evals += 1
                 try:
